@@ -185,6 +185,40 @@ def _path_members(tree: ast.AST, cls_name: str) -> typing.Dict[str, typing.Tuple
     return out
 
 
+DEPS_PIN = [('src/nunavut/_dependencies.py', 'DependencyBuilder.transitive'),
+            ('src/nunavut/_dependencies.py', 'DependencyBuilder._build_dependency_list'),
+            ('src/nunavut/_dependencies.py', 'DependencyBuilder._extract_data_types'),
+            ('src/nunavut/_dependencies.py', 'DependencyBuilder._extract_dependent_types')]
+
+
+def deps_walk_pinned() -> bool:
+    """the transitive dependency walk (fields, arrays -> element type, service halves, recursion into every composite found) has the
+    shape it had when it was reviewed (tools/translators/pins/c07_deps.txt; the same four functions C08 pins)"""
+    from . import shape_pin
+    try:
+        cur = '\n'.join('## %s:%s\n%s' % (p, q, shape_pin.normalized_dump(p, q)) for p, q in DEPS_PIN) + '\n'
+        return cur == open(os.path.join(os.path.dirname(os.path.abspath(__file__)), 'pins', 'c07_deps.txt'), encoding='utf-8').read()
+    except (OSError, KeyError, SyntaxError, AssertionError):
+        return False
+
+
+def pickle_roots_complete(fn: ast.FunctionDef) -> bool:
+    """every PurePath reachable in the pickled object is relativised only if the directories the Pickler relativises against come
+    from ALL composite types reachable from x: `root_parents` is sorted({t.source_file_path_to_root.parent for t in
+    DependencyBuilder(x).transitive().composite_types} | {x.source_file_path_to_root.parent}) and the walk behind transitive() is
+    the pinned one"""
+    deps_name = None
+    for n in ast.walk(fn):
+        if isinstance(n, ast.Assign) and len(n.targets) == 1 and isinstance(n.targets[0], ast.Name) \
+                and ast.unparse(n.value) == 'DependencyBuilder(x).transitive().composite_types':
+            deps_name = n.targets[0].id
+    if deps_name is None:
+        return False
+    want = 'sorted({t.source_file_path_to_root.parent for t in %s} | {x.source_file_path_to_root.parent})' % deps_name
+    ok = any(isinstance(n, ast.Assign) and ast.unparse(n.targets[0]) == 'root_parents' and ast.unparse(n.value) == want for n in ast.walk(fn))
+    return ok and deps_walk_pinned()
+
+
 def derive_inventory(trees: typing.Dict[str, ast.Module]) -> dict:
     envt = trees[os.path.join('jinja', 'environment.py')]
     jj = trees[os.path.join('jinja', '__init__.py')]
@@ -245,7 +279,7 @@ def derive_inventory(trees: typing.Dict[str, ast.Module]) -> dict:
                     src = ast.unparse(ro)
                     rets = [ast.unparse(r.value) for r in ast.walk(ro) if isinstance(r, ast.Return) and r.value is not None]
                     if re.search(r'isinstance\(\w+, pathlib\.PurePath\)', src) and '.relative_to(' in src \
-                            and any(r.startswith('(pathlib.PurePosixPath,') for r in rets):
+                            and any(r.startswith('(pathlib.PurePosixPath,') for r in rets) and pickle_roots_complete(fn):
                         kind = None
             elif 'resolve' in params:
                 kind = 'KAbsSrc:args'                            # absolute only when called with an argument
